@@ -151,9 +151,10 @@ where
                 }
             }
         } else if let Some(ref mut service_stream) = last_service_stream {
-            // flush buffer
-            client_writer.write_all(client_bufreader.buffer())?;
-            let service_writer = service_stream.try_clone()?;
+            // what the client sent behind the upgrading request belongs to the service
+            let mut service_writer = service_stream.try_clone()?;
+            service_writer.write_all(client_bufreader.buffer())?;
+            service_writer.flush()?;
             let service_reader = WatchClose::new_read(service_stream.as_ref(), &client_writer)?;
             let client_reader = WatchClose::new_read(&client_reader, service_stream.as_ref())?;
 
